@@ -334,7 +334,7 @@ class C16(Check):
     evalA_sample = 400
     rule = ("extra_rt (RawExtraField::from(ExtraField) then ExtraField::try_parse + accessors + RawExtraField::try_parse) on: "
             "EVERY padding size 0..255 alone, last after each other kind, and followed by each other kind (exhaustive); nonce and "
-            "MinerGate blob lengths {0,1,127,128,255,256,16383,16384}; 0..5 additional keys; merge-mining depth at every varint "
+            "MinerGate blob lengths {0,1,127,128,255,256,16383,16384}; 0..5 and 127..300 additional keys; merge-mining depth at every varint "
             "boundary; seeded random well-formed sequences of <= 8 sub-fields and random sequences violating the padding rule; "
             "subfield_rt (serialize + deserialize_partial + deserialize of one SubField) on the same; descriptions with invalid keys; "
             "extra_parse on EVERY byte string of length <= 2, on single-site mutations at every offset (7 substitutions, non-minimal "
@@ -417,6 +417,12 @@ class C16(Check):
                 srt(f, "add-n")
                 rt([f], "add-n")
                 rt([others["pk"], f, ("add", (keys.get(rng),)), ("pk", keys.get(rng))], "add-first-match")
+        # many additional keys: the count is a varint (127 / 128 / 129 keys, 255 / 256 / 300 for a one-byte counter)
+        for n in (127, 128, 129, 255, 256, 300):
+            f = ("add", tuple(keys.get(rng) for _ in range(n)))
+            srt(f, "add-many")
+            rt([f], "add-many")
+            rt([others["pk"], f, others["nonce"]], "add-many")
         for k in keys.pool:
             srt(("pk", k), "pk")
             rt([("pk", k)], "pk")
